@@ -926,8 +926,23 @@ def serializer_flags(prog):
         if t[3] == "Ptr" and "compl" in t[5]:
             n += 1
             flags.add(t[4][t[5].index("compl")])
-    if n < 2 or len(flags) != 1:
+    # a private helper that builds the pointer from a `compl` parameter: the flag is the argument at its call sites
+    for cs in te.calls:
+        if not (cs.callee.local or getattr(cs.callee, "res_local", False)):
+            continue
+        for h in prog.resolve(cs.callee):
+            if h is fn or h.kind == "Closure" or h.terms.ret is None:
+                continue
+            r = strip(h.terms.ret)
+            if r[0] == "agg" and r[3] == "Ptr" and "compl" in r[5]:
+                f_ = strip(r[4][r[5].index("compl")])
+                if f_[0] == "param" and f_[1] - 1 < len(cs.args):
+                    n += 1
+                    flags.add(cs.args[f_[1] - 1])
+    if len(flags) > 1:
         errs.append("Ptr{index, compl} constructions do not share one compl flag (%d sites, %d flags)" % (n, len(flags)))
+    elif n < 2 or not flags:
+        errs.append("?expected the pointer to be built at two or more sites (table hit, new row), found %d" % n)
     else:
         c = flags.pop()
         # the flag is a join of constants; follow the variant edges of the match on the pointer
@@ -961,6 +976,6 @@ def serializer_flags(prog):
                     want = "1" if nme in NEG_VARIANTS else "0"
                     if vals != {want}:
                         errs.append("compl flag for a %s pointer can be %s (must be %s)" % (nme, sorted(vals), want == "1"))
-    out.append(inst("CP", "%s:compl-flag" % fn.npath, VIOLATION if errs else OK, fn, None,
-                    "; ".join(errs) if errs else "every emitted pointer carries compl = complement bit of the pointer"))
+    out.append(inst("CP", "%s:compl-flag" % fn.npath, verdict_of(errs), fn, None,
+                    errtext(errs) if errs else "every emitted pointer carries compl = complement bit of the pointer"))
     return out
